@@ -1247,3 +1247,26 @@ def deep_origins(fn, op, depth=0, seen=None, stop=("as std::iter::Iterator>::nex
             rv = rv_at(o.fn, *o.data)
             for a in rv[2]: out |= deep_origins(o.fn, a, depth + 1, seen, stop)
     return out
+
+PIPE_ADAPTORS = ("Iterator::map", "Iterator::filter", "Iterator::filter_map", "Iterator::collect", "Iterator::cloned", "Iterator::copied",
+                 "Iterator::enumerate", "Iterator::peekable", "Iterator::inspect", "Iterator::take", "Iterator::skip", "Iterator::rev",
+                 "Iterator::flat_map", "Iterator::flatten", "Iterator::chain", "IntoIterator>::into_iter", "::into_iter", "::iter", "::by_ref")
+
+def pipeline_filters(F, fn, op, depth=0, seen=None):
+    """closure functions of the `.filter(..)` adaptors in the iterator pipeline that produces `op`
+    (a collection built by collect(), an iterator handed to extend()/for_each(), ...)"""
+    out = []
+    if seen is None: seen = set()
+    if depth > 12: return out
+    for o in trace_op(fn, op, transparent=TRANSPARENT):
+        if o.kind != "call" or (o.fn.path, o.data) in seen: continue
+        seen.add((o.fn.path, o.data))
+        t = o.fn.blocks[o.data]["t"]; c = callee(t) or ""
+        if c.endswith("Iterator::filter") and len(t[2]) > 1:
+            for o3 in trace_op(o.fn, t[2][1], transparent=()):
+                if o3.kind == "agg":
+                    rv = rv_at(o3.fn, *o3.data)
+                    if rv[1].get("k") == "closure" and F.fn(rv[1]["path"]) is not None: out.append(F.fn(rv[1]["path"]))
+        if any(c.endswith(x) for x in PIPE_ADAPTORS) and t[2]:
+            out += pipeline_filters(F, o.fn, t[2][0], depth + 1, seen)
+    return out
